@@ -76,6 +76,19 @@ def main():
         r2 = pickle.loads(pickle.dumps(res))
         if not (np.array_equal(r2.py_get_result(), res.py_get_result()) and np.array_equal(r2.py_get_timepoints(), res.py_get_timepoints())):
             return dict(reproduced=True, call='pickle of a result object', observed='differs', expected='equal data')
+    # lineage cell states with every field away from its default (a cell that divided / died by some rule code): pickle, double pickle, deep copy
+    from bioscrape.lineage import LineageVolumeCellState
+    for it in range(SPEC.get('cell_rounds', 12)):
+        kw = dict(v0=rng.uniform(0.5, 2), t0=rng.uniform(0, 3), state=[float(rng.randint(0, 9)) for _ in range(3)], volume=rng.uniform(2, 4), time=rng.uniform(3, 9),
+                  divided=rng.randint(-1, 3), dead=rng.randint(-1, 3))
+        cs = LineageVolumeCellState(**kw)
+        ref = cs.__getstate__()
+        for k, cp in enumerate((pickle.loads(pickle.dumps(cs)), pickle.loads(pickle.dumps(pickle.loads(pickle.dumps(cs)))), copy.deepcopy(cs))):
+            n += 1
+            got = cp.__getstate__()
+            if not all(np.array_equal(a, b) for a, b in zip(got, ref)):
+                return dict(reproduced=True, call='copy route %d of LineageVolumeCellState(%r)' % (k, kw), observed=str(got), expected=str(ref),
+                            what='(initial volume, initial time, state, volume, time, divided, dead)')
     return dict(reproduced=False, evaluations=n)
 
 
